@@ -228,19 +228,22 @@ func init() {
 
 // raw (non-tree) bodies
 var rawBodies = map[string]string{
-	"empty":   "",
-	"text":    "  something went wrong on the server\n",
-	"blank":   " \r\n\t  \n",
-	"html":    "<html><head><title>502</title></head><body><h1>Bad Gateway</h1></body></html>",
-	"ical":    icalText,
-	"vcard":   vcardText,
-	"notxml":  "this is <not xml",
-	"xmldecl": `<?xml version="1.0" encoding="utf-8"?>`,
-	"t1023":   strings.Repeat("a", 1023),
-	"t1024":   strings.Repeat("a", 1024),
-	"t1025":   strings.Repeat("a", 1025),
-	"sp1024a": strings.Repeat(" ", 1024) + "a",
-	"sp1023a": strings.Repeat(" ", 1023) + "a",
+	"empty": "",
+	"text":  "  something went wrong on the server\n",
+	"blank": " \r\n\t  \n",
+	"html":  "<html><head><title>502</title></head><body><h1>Bad Gateway</h1></body></html>",
+	"ical":  icalText,
+	"vcard": vcardText,
+	// go-ical's decoder panics on a parameter value that ends the line
+	"icalpanic": "BEGIN:VCALENDAR\r\nVERSION:2.0\r\nX-A;B=c\r\nEND:VCALENDAR\r\n",
+	"icalbad":   "BEGIN:VCALENDAR\r\nVERSION:2.0\r\nno colon here\r\nEND:VCALENDAR\r\n",
+	"notxml":    "this is <not xml",
+	"xmldecl":   `<?xml version="1.0" encoding="utf-8"?>`,
+	"t1023":     strings.Repeat("a", 1023),
+	"t1024":     strings.Repeat("a", 1024),
+	"t1025":     strings.Repeat("a", 1025),
+	"sp1024a":   strings.Repeat(" ", 1024) + "a",
+	"sp1023a":   strings.Repeat(" ", 1023) + "a",
 }
 
 var rawNames []string
@@ -254,7 +257,7 @@ func init() {
 
 // ---- structure-aware mutations of a document
 
-var textCorruptions = []string{"", "garbage", "-5", "%zz", "HTTP/1.1 404 Not Found", "/other/path", "W/\"w\"", "HTTP/1.1 99 X", "HTTP/1.1 200"}
+var textCorruptions = []string{"", "garbage", "-5", "%zz", "HTTP/1.1 404 Not Found", "/other/path", "W/\"w\"", "HTTP/1.1 99 X", "HTTP/1.1 200", "X-A;B=c", "\"q\""}
 
 // mutationCount returns how many mutations mutate() knows for the document.
 func mutations(doc *node) []string {
